@@ -1012,7 +1012,7 @@ def run_seq(case):
         if [s["post"] for s in o2["steps"]] != posts:
             out["bad"] = "the same operator sequence on the same input (same rng seed) gave different states the second time"
     if case.get("twin") and not out["bad"]:  # hand-built and from_problem states are the same states
-        o2 = _run_seq(vrp, {**case, "start": "from_problem", "rebuild_at": []})
+        o2 = _run_seq(vrp, {**case, "start": "from_problem", "rebuild_at": [], "norm_at": list(case.get("rebuild_at") or [])})
         p2 = [s["post"] for s in o2["steps"]]
         if p2 != posts:
             k = next((i for i, (a, b) in enumerate(zip(posts, p2)) if a != b), min(len(posts), len(p2)))
@@ -1059,6 +1059,7 @@ def _run_seq(vrp, case):
     history = [(st, out["init"])]
     rng = RecRandom(case["seed"])
     rebuild = set(case.get("rebuild_at") or [])
+    norm_at = set(case.get("norm_at") or [])
     big = len(inst["customers"]) > 50 or len(inst["caps"]) > 50
     a2_pending = None
     for k, (name, params) in enumerate(case["plan"]):
@@ -1092,6 +1093,11 @@ def _run_seq(vrp, case):
             history = [(st, snap)]  # earlier states share the (edited) customers list; only this one is tracked from here
             a2_pending = what
             continue
+        if k in norm_at:
+            # reference run of the twin check: the hand-built twin gets, at this step, an `unassigned` set freshly built from the
+            # sorted ids; the iteration order of a CPython set depends on its insertion / deletion history, and the insertion
+            # operators break ties by that order - so the reference gets the same fresh set (a caller may assign the public field)
+            st.unassigned = {c for c in snapshot(st)["unassigned"]}
         if k in rebuild:  # class A: re-build the state from its public fields with the dataclass constructor
             st = hand_state(RecState, custs, vehs, snapshot(st), [list(a) for a in st.arrival_times], fresh)
             history.append((st, snapshot(st)))
